@@ -298,6 +298,7 @@ func c13ExprCase(e *c13Expr, st c13Style, pos string) *Case {
 		tpl = "<p v-show=" + attrQ + src + attrQ + ">x</p>"
 	}
 	want := e.eval()
+	pendingPages = append(pendingPages, pageCase("expr:"+pos, map[string]string{"p.vuego": tpl}, nil, "p.vuego", c13Env, "pos:"+pos))
 	res := renderPage(map[string]string{"p.vuego": tpl}, "p.vuego", c13Env)
 	feats := e.features(st)
 	c := &Case{Name: pos + ": " + src, Input: map[string]any{"stream": "expr", "src": src, "pos": pos, "tpl": tpl}, Impl: res.canon(), Oracle: &Verdict{OK: true}, Key: pos + "|" + src,
@@ -485,6 +486,7 @@ func runC13(r *Run, replay *Case) {
 	r.Res.Rule = "typed expression trees (int/string/bool; paths into maps, slices, structs; literals; comparison, logical, arithmetic, ternary, calls) of depth <= D over a fixed environment x " +
 		"5 positions x printer variants (spaces around operators or not, ' or \" quotes, == or ===); pipes: 31 chains over built-ins and 11 registered functions with every parameter kind x 4 positions; " +
 		"reference evaluator written in Go; non-trivial = every case; distinct by (position, printed expression)"
+	defer flushPages(r)
 	g := &c13Gen{r: r.Rng}
 	n := 700
 	depth := 2
@@ -511,6 +513,40 @@ func runC13(r *Run, replay *Case) {
 	for _, p := range c13Pipes() {
 		for _, pos := range []string{"text", "attr", "if", "show"} {
 			r.Add(c13PipeCase(p, pos))
+		}
+	}
+	// built-in-only pipe chains: real engine vs the Lean pipe interpreter (parsePipeExpr / evalPipe / callBuiltin), byte for byte
+	heads := []string{"s", "t", "e", "n", "lst", "obj.k", "st.Y", "missing", "'lit'", "upper(s)", "len(lst)", "digits"}
+	segs := []string{"upper", "lower", "trim", "len", "string", "escape", "default('d')", "default(t)", "default(missing)", "nosuch", "upper(1)", "default", "upper()"}
+	np := 250
+	if r.Thorough() {
+		np = 4000
+	}
+	for i := 0; i < np; i++ {
+		e := heads[g.r.Intn(len(heads))]
+		for k := g.r.Intn(4); k > 0; k-- {
+			sep := " | "
+			if g.r.Intn(5) == 0 {
+				sep = "|"
+			}
+			e += sep + segs[g.r.Intn(len(segs))]
+		}
+		for _, pos := range []string{"text", "attr", "if", "show"} {
+			if (pos == "if" || pos == "show") && strings.Contains(e, "()") {
+				continue // `x | f()` in a condition is expr-lang's own pipe operator, which ExprMini (the model-side stand-in for expr-lang) does not implement
+			}
+			var tpl string
+			switch pos {
+			case "text":
+				tpl = "<p>[[{{ " + e + " }}]]</p>"
+			case "attr":
+				tpl = `<p :title="` + e + `">x</p>`
+			case "if":
+				tpl = `<p v-if="` + e + `">[[T]]</p><p v-else>[[F]]</p>`
+			case "show":
+				tpl = `<p v-show="` + e + `">x</p>`
+			}
+			r.Add(pageCase("pipe:"+pos, map[string]string{"p.vuego": tpl}, nil, "p.vuego", c13Env, "pos:"+pos, "pipe-builtin"))
 		}
 	}
 }
